@@ -1804,6 +1804,10 @@ class Interp:
                     out += list(self.iterate(self.eval(x.value, env, mod)))
                 else:
                     out.append(self.eval(x, env, mod))
+            if T is ast.Set:
+                for el in out:
+                    if isinstance(el, PObj) and not el.has_base:
+                        self.hash_(el)  # a set display hashes its members: an object whose class defines __eq__ without __hash__ is refused (TypeError)
             return tuple(out) if T is ast.Tuple else out if T is ast.List else set(out)
         if T is ast.Dict:
             d = {}
@@ -1812,6 +1816,11 @@ class Interp:
                     d.update(self.eval(v, env, mod))
                 else:
                     kk = self.eval(k, env, mod)
+                    if isinstance(kk, PObj) and not kk.has_base:
+                        self.hash_(kk)  # (hashable or TypeError, as for the set display)
+                        x_ = self.find_key(d, kk)
+                        d[kk if x_ is PClass.MISSING else x_] = self.eval(v, env, mod)
+                        continue
                     if not self.concrete(kk):
                         raise Unsupported("symbolic dict key in display")
                     d[kk] = self.eval(v, env, mod)
